@@ -260,6 +260,8 @@ def c03(ctx):
             if seen[cls] <= 2:
                 ctx.violation("C03." + cls, detail, {"case": c, "result": x})
     ctx.extra["diagnostics_checked"] = ndiags
+    import props_c13
+    props_c13.text_rules_c03(ctx)
     ctx.correspondence("well-formedness assertion set over every diagnostic (implementation)", len(cases), len(nontriv), [],
                        "repo test programs x media types (+ multi-byte/CRLF/shebang prefixes) + pipeline scenarios, all rules; asserted: 0<=start<=end<=len, char boundaries, token/comment boundaries (except character-level rules %s), specifier/text identity, sortedness, fix ranges in-bounds/on boundaries/non-overlapping, display() does not panic; non-trivial := at least one diagnostic" % sorted(CHAR_LEVEL_RULES))
 
@@ -496,6 +498,8 @@ def c09(ctx):
                 nbad[cls] += 1
                 if nbad[cls] <= 2:
                     ctx.violation(cls, "diagnostics changed other than by translation", {"base": cases[k], "variant": cases[j], "expected": exp[:10], "got": got[:10]})
+    import props_c13
+    props_c13.text_rules_c09(ctx)
     ctx.correspondence("P vs prefix+P / BOM+P / CRLF(P) (implementation differential, all rules)", len(cases), len(nontriv), [],
                        "repo test programs + pipeline scenarios; prefixes %s; non-trivial := program with at least one diagnostic" % [p for p, _ in PREFIXES])
 
